@@ -286,13 +286,13 @@ func runC06(c *core.Ctx, o Options) {
 				bad = append(bad, refusal+": the Reject is not built by MakeReject exactly once")
 				continue
 			}
-			seq := an.Render(mk[0].Args[3])
+			seq := mk[0].R(mk[0].Args[3])
 			wantSeq := an.Render(target) + ".HeaderBuilder().MsgSeqNum()"
 			if seq != wantSeq {
 				bad = append(bad, fmt.Sprintf("%s: RefSeqNum operand is %s, expected the Logon's own sequence number %s", refusal, seq, wantSeq))
 			}
 			if refusal == "params" {
-				tag := an.Render(mk[0].Args[2])
+				tag := mk[0].R(mk[0].Args[2])
 				if !strings.HasSuffix(tag, ".checkLogonParams("+an.Render(target)+")#1") {
 					bad = append(bad, "params: RefTagID operand is "+tag+", not the tag reported by the parameter check")
 				}
@@ -356,7 +356,7 @@ func runC06(c *core.Ctx, o Options) {
 						continue
 					}
 					found = true
-					r := an.Render(e.Args[1])
+					r := e.R(e.Args[1])
 					direct := an.Render(target) + "." + f.field + "()"
 					viaSettings := strings.HasSuffix(r, ".LogonSettings."+f.field) && fieldsFrom[f.field] == direct
 					if r != direct && !viaSettings {
@@ -409,7 +409,7 @@ func runC06(c *core.Ctx, o Options) {
 					continue
 				}
 				got[e.Name] = true
-				if r := an.Render(e.Args[1]); r != "s.LogonSettings."+f {
+				if r := e.R(e.Args[1]); r != "s.LogonSettings."+f {
 					bad = append(bad, e.Name+" operand is "+r+", not the configured s.LogonSettings."+f)
 				}
 			}
@@ -660,7 +660,8 @@ func (s *sess) checkSettingsPreserved(rule string) {
 			var miss []string
 			for _, e := range fl.Envs {
 				for _, f := range []string{"HeartBtLimits", "CloseTimeout", "LogonTimeout"} {
-					if e.Env[f] != "s.LogonSettings."+f {
+					// the same field of the settings being replaced (read through the session, however the session is reached)
+					if e.Env[f] != "s.LogonSettings."+f && !strings.HasSuffix(e.Env[f], ".LogonSettings."+f) {
 						m := fmt.Sprintf("%s ← %q", f, e.Env[f])
 						dup := false
 						for _, x := range miss {
